@@ -118,6 +118,9 @@ class CategoricalDiscretizer(BaseDiscretizer):
 
     @extend_docstring(BaseDiscretizer.fit)
     def fit(self, X: DataFrame, y: Series) -> None:  # pylint: disable=W0222
+        # refusing to fit an already fitted object, before anything is modified
+        self._check_is_not_fitted()
+
         # copying dataframe and checking data before bucketization
         x_copy = self._prepare_data(X, y)
 
@@ -295,6 +298,9 @@ class OrdinalDiscretizer(BaseDiscretizer):
 
     @extend_docstring(BaseDiscretizer.fit)
     def fit(self, X: DataFrame, y: Series) -> None:  # pylint: disable=W0222
+        # refusing to fit an already fitted object, before anything is modified
+        self._check_is_not_fitted()
+
         if self.verbose:  # verbose if requested
             print(f" - [OrdinalDiscretizer] Fit {str(self.features)}")
 
@@ -599,6 +605,9 @@ class ChainedDiscretizer(BaseDiscretizer):
 
     @extend_docstring(BaseDiscretizer.fit)
     def fit(self, X: DataFrame, y: Series = None) -> None:  # pylint: disable=W0222
+        # refusing to fit an already fitted object, before anything is modified
+        self._check_is_not_fitted()
+
         # filling nans
         x_copy = self._prepare_data(X, y)
 
